@@ -2,6 +2,7 @@ package rules
 
 import (
 	"fmt"
+	"go/token"
 	"strings"
 
 	"golang.org/x/tools/go/ssa"
@@ -56,6 +57,26 @@ func c19R3(c *Ctx) {
 		}
 		for _, ci := range adds {
 			ok := f.HasGuard(ci, func(g string) bool { return strings.HasSuffix(g, " < a0.waitingLimit)") && strings.Contains(g, "loop") })
+			if !ok {
+				// the count may be computed by a helper of the pool that sums over tp.waiting
+				for _, g := range f.Guards(ci.(ssa.Instruction)) {
+					bo, isBo := g.Cond.(*ssa.BinOp)
+					if !isBo || exprOf(bo.Y) != "a0.waitingLimit" || !((bo.Op == token.LSS && g.Pol) || (bo.Op == token.GEQ && !g.Pol)) {
+						continue
+					}
+					if cl, isCall := bo.X.(*ssa.Call); isCall {
+						if callee := cl.Call.StaticCallee(); callee != nil && callee.Blocks != nil && len(cl.Call.Args) == 1 && exprOf(cl.Call.Args[0]) == "a0" {
+							for _, b := range callee.Blocks {
+								for _, ins := range b.Instrs {
+									if r, isR := ins.(*ssa.Range); isR && exprOf(r.X) == "a0.waiting" {
+										ok = true
+									}
+								}
+							}
+						}
+					}
+				}
+			}
 			c.R.Ob(rule, "addWaiting:Add⊣count<waitingLimit", ok, c.Pos(ci), fname(f), "the waiting queue grows although it is at its limit; "+guardsText(f, ci))
 		}
 	}
